@@ -1,6 +1,7 @@
 (* Property C12 — PES headers and timestamps per ISO 13818-1 2.4.3.6-7 (theorems only; proofs in Proofs/). *)
 From Coq Require Import ZArith List.
-Require Import Base.Bits Base.Iter Base.Wr Gen.Consts Gen.Types Gen.Preds Model.Clock Model.Pes Proofs.ClockProofs Proofs.PesProofs.
+Require Import Base.Bits Base.Iter Base.Wr Gen.Consts Gen.Types Gen.Preds Model.Clock Model.Pes Spec.PesSpec
+  Proofs.ClockProofs Proofs.PesProofs Proofs.PesRoundTrip.
 Import ListNotations.
 Open Scope Z_scope.
 
@@ -65,3 +66,27 @@ Theorem C12_payload : forall bs h ds de i',
   (L = 0 -> len < 6 + hdr -> parse_pes_data_bytes bs = Err E_generic).
 Proof. exact payload_rule. Qed.
 Print Assumptions C12_payload.
+
+(* parse (write v) = observed v, full strength: for EVERY writable header v (Spec.PesSpec.wf_header: any stream id;
+   for ids with an optional header every field within its width - all 2^2 scrambling values, all flag
+   combinations, PTS/DTS/ESCR over all 2^33 x 2^9 values, ES rate 0..2^22-1, every trick mode, copy info,
+   16 bytes of private data, sequence counter, P-STD buffer, extension 2 of 0..127 bytes; the two parts the writer
+   does not support, CRC and pack header, absent) and every payload: writePESHeader succeeds, reports the number of
+   bytes it produced, and parsePESData on header ++ payload returns exactly the payload and the header with its derived
+   fields filled in (marker bits '10', PES_header_data_length = sum of the parts present, PES_extension_field_length,
+   PES_packet_length by the length rule). *)
+Theorem C12_parse_write_header : forall h payload, wf_header h -> bytes_ok payload ->
+  exists its n, enc_pes_header h (Z.of_nat (length payload)) = Ok (its, n) /\
+    n = Z.of_nat (length (bytes_of_items its)) /\
+    parse_pes_data_bytes (bytes_of_items its ++ payload) =
+      Ok {| PESData_Data := payload;
+            PESData_Header := Some (observed_header h (Z.of_nat (length payload))) |}.
+Proof. exact parse_write_header. Qed.
+Print Assumptions C12_parse_write_header.
+
+(* the regenerated calcPESOptionalHeaderDataLength (uint8 arithmetic, from data_pes.go) never wraps on a writable
+   header: it is the sum of the sizes of the parts present, at most 170 *)
+Theorem C12_header_data_length : forall h, wf_opt h ->
+  calcPESOptionalHeaderDataLength h = ref_header_data_length h /\ 0 <= ref_header_data_length h <= 170.
+Proof. intros h W. split; [apply calc_len_eq | apply ref_len_range]; exact W. Qed.
+Print Assumptions C12_header_data_length.
